@@ -1891,7 +1891,9 @@ class Window(Container):
 
         mouse_handlers.set_mouse_handler_for_range(
             x_min=write_position.xpos + sum(left_margin_widths),
-            x_max=write_position.xpos + write_position.width - total_margin_width,
+            x_max=write_position.xpos
+            + write_position.width
+            - sum(right_margin_widths),
             y_min=write_position.ypos,
             y_max=write_position.ypos + write_position.height,
             handler=mouse_handler,
